@@ -311,6 +311,17 @@ type Writer struct {
 	// returns onceErr; every other call is healthy
 	onceAt  int
 	onceErr error
+
+	// transient partial write: the Write call that crosses offset partialAt
+	// accepts the bytes up to it and returns partialErr; later calls are healthy
+	partialAt  int
+	partialErr error
+	partialHit bool
+}
+
+// PartialOnceAt plans a TRANSIENT partial write at byte offset k (k > 0).
+func (w *Writer) PartialOnceAt(k int, err error) {
+	w.partialAt, w.partialErr = k, err
 }
 
 // FailOnceAtCall plans a TRANSIENT fault: call number n (1-based) accepts no
@@ -345,6 +356,15 @@ func (w *Writer) Write(p []byte) (int, error) {
 	}
 	w.Sizes = append(w.Sizes, len(p))
 	w.Offs = append(w.Offs, len(w.Buf))
+	if w.partialAt > 0 && !w.partialHit && len(w.Buf) < w.partialAt && len(w.Buf)+len(p) > w.partialAt {
+		n := w.partialAt - len(w.Buf)
+		w.Buf = append(w.Buf, p[:n]...)
+		w.partialHit = true
+		w.Fired = true
+		r.Fault("write.transient-partial")
+		r.Event("write", "transient-partial", fmt.Sprintf("%s n=%d of %d", w.name, n, len(p)))
+		return n, w.partialErr
+	}
 	if w.failed {
 		return 0, w.err
 	}
